@@ -2,6 +2,7 @@ SPECIFICATION Spec
 CONSTANTS
   Machine = "log"
   CrashPoints = FALSE
+  RollFaults = TRUE
   MaxCount = 3
   Limit = 4
   MaxWrite = 6
@@ -17,5 +18,5 @@ CONSTANTS
   MaxIds = 12
 CONSTRAINT Bounded
 INVARIANTS TypeOK LogCountBound LogCountRecovered LogCountBoundCrash LogSizeBound LogSizeStrict
-PROPERTIES LogNoGrowthWithoutRoll
+PROPERTIES LogNoGrowthWithoutRoll LogNoGrowthWhileRollFails
 CHECK_DEADLOCK FALSE
